@@ -1,3 +1,4 @@
+import FM.Lemmas.RenderPD
 import FM.Model.Render
 import FM.Model.Transforms
 /-
@@ -125,6 +126,31 @@ mutual
 end
 
 /-! ### destinations and code spans are emitted as they are -/
+
+/-- how a reader takes the container prefix off a code line again -/
+def unprefixCode (snd line : Str) : Str := if line == rstrip snd then [] else line.drop snd.length
+
+/-- CODE_LINES_VERBATIM: every line of a code block's content is written as the continuation prefix
+followed by the line itself (a blank line as the prefix without its trailing whitespace), so taking
+the prefix off again gives back exactly the content lines — for every content, prefix and fence. -/
+theorem CODE_LINES_VERBATIM (snd : Str) (ls : List Str) :
+    (ls.map fun l => if l.isEmpty then rstrip snd else snd ++ l).map (unprefixCode snd) = ls := by
+  induction ls with
+  | nil => rfl
+  | cons l ls ih =>
+    simp only [List.map_cons, ih]
+    congr 1
+    by_cases hl : l = []
+    · subst hl; simp [unprefixCode]
+    · have hne : l.isEmpty = false := by cases l <;> simp_all
+      have hlen : (snd ++ l).length ≠ (rstrip snd).length := by
+        have h1 : (rstrip snd).length ≤ snd.length := (rstrip_prefix snd).length_le
+        have h2 : 0 < l.length := List.length_pos_iff.mpr hl
+        simp; omega
+      have hneq : (snd ++ l == rstrip snd) = false := by
+        apply beq_false_of_ne
+        intro e; exact hlen (by rw [e])
+      simp [unprefixCode, hne, hneq]
 
 /-- a link without a matching reference definition is written `[text](dest)` / `[text](dest "title")`
 with `dest` unchanged -/
